@@ -53,6 +53,10 @@ def main(ctx, args):
         for q in Q:
             g = "(" + x + ")" + q
             brk += [g, g + "b", "a" + g + "ab", g + "c|ab"] + ([] if ctx.quick else ["(" + g + ")", g + "(b)", "(a)" + g, g + g])
+    # repetition bounds: {m,} with m >= 2, {m,n}, {0,} on atoms, brackets and groups, anchored and not
+    for x in ["a", "[ab]", "(a|b)", ".", "(ab)"]:
+        for b in ["{2,}", "{3,}", "{2,3}", "{0,}", "{1,2}", "{0,1}", "{3}"]:
+            brk += [x + b, "^" + x + b + "b", x + b + "$", "b" + x + b + "a"]
     brk = sorted(set(brk))
     per = max(1, (len(brk) + NCPU - 1) // NCPU)
     for i in range(0, len(brk), per):
